@@ -110,16 +110,18 @@ func (s *Store) Delete(key string) error {
 func filterQuery(q string, prefixes []string, notPrefixes []string) (string, []interface{}) {
 	conds := []string{}
 	args := []interface{}{}
+	// prefixes are matched literally: LIKE would treat "_" and "%" as wildcards
+	// and ignore ASCII case
 	for _, s := range prefixes {
-		conds = append(conds, "name LIKE ?")
-		args = append(args, s+"%")
+		conds = append(conds, "substr(name, 1, length(?)) = ?")
+		args = append(args, s, s)
 	}
 	if len(conds) > 1 {
 		conds = []string{fmt.Sprintf("(%s)", strings.Join(conds, " OR "))}
 	}
 	for _, s := range notPrefixes {
-		conds = append(conds, "name NOT LIKE ?")
-		args = append(args, s+"%")
+		conds = append(conds, "substr(name, 1, length(?)) != ?")
+		args = append(args, s, s)
 	}
 	if len(conds) > 0 {
 		q = fmt.Sprintf("%s WHERE %s", q, strings.Join(conds, " AND "))
